@@ -382,7 +382,7 @@
 
         ! main loop
         do n = 1, nstop, 1
-           prefactor = (2.*n + 1.) / (n * (n + 1.))
+           prefactor = (2.d0*n + 1.d0) / (n * (n + 1.d0))
            hl = jn(n) + ci*yn(n) ! spherical hankel
            dhl = hl/kr + djn(n) + ci*dyn(n)
            asm(1) = asm(1) + prefactor * ci**n * ( &
@@ -440,7 +440,7 @@
 
         ! main loop
         do n = 1, nstop, 1
-           prefactor = (2.*n + 1.) / (n * (n + 1.))
+           prefactor = (2.d0*n + 1.d0) / (n * (n + 1.d0))
            asm(1) = asm(1) + prefactor * ( &
                 asbs(1,n) * pi_n(n) + asbs(2,n) * tau_n(n))
            asm(2) = asm(2) + prefactor * ( &
